@@ -17,6 +17,9 @@ package actor
 //   event "batch -> peer"      an intercepted RelocateBatch attempt is released with a verdict:
 //                              ok | transport error (cost 1) | handled by the peer but reply lost (cost 1)
 //                              | peer unreachable from now on (cost 1);
+//   event "snapshot-delete"    the DeletePeerState call of a finishing (or aborting) relocation, intercepted in the
+//                              leader's peer-state store, is released - duplicates can thus arrive while the
+//                              worker is inside its last bookkeeping step;
 //   event "tick"               nothing to release but the relocation is still running (retry back-off):
 //                              virtual time advances by one second;
 //   event "end"                relocation finished: stop (or deliver a late duplicate first).
@@ -168,13 +171,13 @@ func c33Run(t *testing.T, sc c33Scenario, c *vsched.Chooser) (out vsched.Outcome
 			panic(err)
 		}
 		w.mu.Lock()
-		w.gateBatches, w.gateScan = true, true
+		w.gateBatches, w.gateScan, w.gateDelete = true, true, true
 		w.mu.Unlock()
 
 		deliver := func() {
 			ev := c33NodeLeftEvent(d)
 			for _, n := range survivors {
-				n.sys.handleNodeLeftEvent(ev)
+				n.handleNodeLeft(ev)
 			}
 		}
 		workerAlive := func() bool { return len(leader.sys.relocator.Children()) > 0 }
@@ -203,8 +206,9 @@ func c33Run(t *testing.T, sc c33Scenario, c *vsched.Chooser) (out vsched.Outcome
 				return len(a.req.GetGrains()) < len(b.req.GetGrains())
 			})
 			scans := w.scansWaiting()
+			deletes := w.deletesWaiting()
 			alive := workerAlive()
-			inFlight := len(pend) > 0 || scans > 0 || alive
+			inFlight := len(pend) > 0 || scans > 0 || deletes > 0 || alive
 
 			type event struct {
 				label string
@@ -220,6 +224,12 @@ func c33Run(t *testing.T, sc c33Scenario, c *vsched.Chooser) (out vsched.Outcome
 						w.releaseScans(fmt.Errorf("c33: injected registry scan failure"))
 					}
 					trail = append(trail, [...]string{"scan", "scan!"}[v])
+				}})
+			}
+			if deletes > 0 {
+				events = append(events, event{"snapshot-delete", func() {
+					w.releaseDeletes()
+					trail = append(trail, "del")
 				}})
 			}
 			for _, call := range pend {
@@ -277,8 +287,9 @@ func c33Run(t *testing.T, sc c33Scenario, c *vsched.Chooser) (out vsched.Outcome
 		}
 		// --- drain: open the gates, let every timer and background goroutine finish -----------
 		w.mu.Lock()
-		w.gateBatches, w.gateScan = false, false
+		w.gateBatches, w.gateScan, w.gateDelete = false, false, false
 		w.mu.Unlock()
+		w.releaseDeletes()
 		for _, call := range w.pendingCalls() {
 			w.release(call, c33BatchOK)
 		}
